@@ -65,8 +65,11 @@ def run(tier, seed, replay_path=None):
     # two batches: the general job mix, and one where all threads parse inputs with long whitespace runs through the
     # built-in skipper at the same time (shared state in the hand-written terminal matchers is only reachable this way)
     nws = int(os.environ.get("VERIF_MIRI_WS_SEEDS", 16 if tier == "quick" else 256))
-    batches = [("general", start, nseeds, njobs, []), ("whitespace", start + 500000, nws, 12, ["ws"])]
-    info = {"batches": [], "threads": 3, "preemption_rate": 0.1, "clean_runs": 0, "seeds": nseeds + nws, "wall_s": None, "violation": None}
+    # third batch: one large input on a fully memoized variant among small @leftrec jobs (resources handed from one
+    # parse to the next - tables, buffers, pools - come back large while other threads ask for theirs)
+    npool = int(os.environ.get("VERIF_MIRI_POOL_SEEDS", 4 if tier == "quick" else 64))
+    batches = [("general", start, nseeds, njobs, []), ("whitespace", start + 500000, nws, 12, ["ws"]), ("pool", start + 700000, npool, 6, ["pool"])]
+    info = {"batches": [], "threads": 3, "preemption_rate": 0.1, "clean_runs": 0, "seeds": nseeds + nws + npool, "wall_s": None, "violation": None}
     rc = 0
     for bname, bstart, bn, bjobs, extra in batches:
         if bn <= 0 or rc:
@@ -116,5 +119,5 @@ def run(tier, seed, replay_path=None):
         f.write("\n")
     os.replace(ep + ".tmp", ep)
     if rc == 0:
-        log("C20 miri-sched: %d general + %d whitespace-focused seeds on 3 threads, no data race, UB or differing result (%.1fs)" % (nseeds, nws, info["wall_s"]))
+        log("C20 miri-sched: %d general + %d whitespace + %d pool seeds on 3 threads, no data race, UB or differing result (%.1fs)" % (nseeds, nws, npool, info["wall_s"]))
     return rc
